@@ -147,11 +147,19 @@ func lintCheck(r *hx.Rng, n int) (fails []failure, colCases []string, count int)
 				}
 			}
 		}
-		put("jobs:")
-		put("  test:")
-		put("    runs-on: ubuntu-latest")
-		put("    steps:")
-		put("      - run: echo")
+		switch count % 9 {
+		case 4:
+			// the filters are validated whatever the rest of the workflow looks like: no job at all
+			put("jobs: {}")
+		case 7:
+			// ... and no jobs section
+		default:
+			put("jobs:")
+			put("  test:")
+			put("    runs-on: ubuntu-latest")
+			put("    steps:")
+			put("      - run: echo")
+		}
 		src := sb.String()
 		errs, err := linter.Lint("test.yaml", []byte(src), nil)
 		if err != nil {
